@@ -127,6 +127,32 @@ def run(fx, tier):
                         'configuration is changed only while the client is not open', key='C10:R-FLOW:setter:%s' % f.n,
                         where='%s:%d' % (f.path_file(), l))
 
+    # what the CONNECT carries is what the user configured: the configuration members of mqtt_ctx are written by their
+    # setters only (nothing negotiated at run time is stored back into them)
+    CONFIG_WRITERS = {'creds': ('stream_context', 'credentials'), 'will_msg': ('stream_context', 'will'),
+                      'co_props': ('stream_context', 'connect_properties'), 'authenticator': ('stream_context', 'authenticator'),
+                      'keep_alive': ('client_service', 'keep_alive')}
+    n_cw = 0
+    for f in fx.fns:
+        if not f.path_file().startswith('boost/mqtt5/') or f.d.get('ctor'):
+            continue
+        for b_, i_, l_, x in f.elements():
+            x = f.resolve({'k': 'elem', 'b': b_, 'i': i_})
+            tgt = None
+            if isinstance(x, dict) and x.get('k') == 'assign':
+                tgt = strip(x.get('l'))
+            elif isinstance(x, dict) and x.get('k') == 'call' and x.get('op') == '=' and x.get('args'):
+                tgt = strip(x['args'][0])
+            elif isinstance(x, dict) and x.get('k') == 'call' and 'obj' in x and callee_name(x) in ('emplace', 'reset', 'clear', 'swap', 'assign'):
+                tgt = strip(x['obj'])
+            if isinstance(tgt, dict) and tgt.get('k') == 'mem' and tgt.get('cls') == 'mqtt_ctx' and tgt.get('n') in CONFIG_WRITERS:
+                n_cw += 1
+                want = CONFIG_WRITERS[tgt['n']]
+                v.check((f.cls, f.n) == want, 'R-FLOW', 'writer of mqtt_ctx::%s: %s::%s [%s]' % (tgt['n'], f.cls, f.n, f.tu),
+                        'the configured %s is changed only by its setter %s::%s' % (tgt['n'], want[0], want[1]),
+                        key='C10:R-FLOW:config-writer:%s<-%s::%s' % (tgt['n'], f.cls, f.n), where='%s:%s' % (f.path_file(), l_))
+    if n_cw < 5:
+        raise AnalysisBroken('only %d writes to the configuration members of mqtt_ctx found' % n_cw)
     # the configuration survives cancel()/async_disconnect(): both install dup() of the service, i.e. a chain
     # of copy constructors; every configured input of the CONNECT must be copied, negotiated state must not
     CONFIG = ('creds', 'will_msg', 'keep_alive', 'co_props', 'authenticator')
